@@ -82,6 +82,11 @@ Definition vindex (a : vty) : bool := match a with Some t => is_index t | None =
 Definition vbool (a : vty) : bool := match a with Some TBool => true | _ => false end.
 Definition vprimitive (a : vty) : bool := match a with Some t => primitive t | None => false end.
 
+Definition vseq (a : vty) : bool := match a with Some t => seqlike t | None => false end.
+Definition vlist (a : vty) : bool := match a with Some t => is_listb t | None => false end.
+Definition vtextish (a : vty) : bool := match a with Some t => textish t | None => false end.
+Definition velem (a : vty) : vty := match a with Some t => Some (lelem t) | None => None end.
+
 Definition when (b : bool) (d : diag) : list diag := if b then [d] else [].
 Definition unless (b : bool) (d : diag) : list diag := if b then [] else [d].
 
@@ -112,6 +117,8 @@ Fixpoint pt_expr (F : fenv) (G : env) (e : expr) : list diag :=
   | ECast e t => pt_expr F G e ++ pt_type G t
   | EField _ e => pt_expr F G e
   | ECall f a => match assoc f F with None => [DUnknownFun] | Some (ps, _) => pt_args F G a ps end
+  | ESlice l i j => pt_expr F G l ++ pt_expr F G i ++ pt_expr F G j
+  | EList e a => pt_expr F G e ++ pt_args F G a (repeat (TZahl, false) (alen a))
   end
 with pt_args (F : fenv) (G : env) (a : args) (ps : list (ty * bool)) : list diag :=
   match a, ps with
@@ -139,6 +146,8 @@ Fixpoint rs_expr (G : env) (e : expr) : list diag :=
   | ECast e _ => rs_expr G e
   | EField _ e => rs_expr G e                      (* the field name is not resolved *)
   | ECall _ a => rs_args G a
+  | ESlice l i j => rs_expr G l ++ rs_expr G i ++ rs_expr G j
+  | EList e a => rs_expr G e ++ rs_args G a
   end
 with rs_args (G : env) (a : args) : list diag :=
   match a with
@@ -175,7 +184,18 @@ Definition tc_bin (o : binop) (a b : vty) : vty * list diag :=
   | BUnd | BOder => (Some TBool, validate2 vbool a b)
   | BStelle =>
       (match a with Some (TList t) => Some t | Some TText => Some TChar | _ => b end,
-       unless (match a with Some (TList _) | Some TText => true | _ => false end) DTypeOp ++ unless (vindex b) DTypeOp)
+       unless (vseq a) DTypeOp ++ unless (vindex b) DTypeOp)
+  | BVerkettet =>
+      (* typechecker.go BIN_CONCAT.  NOT mirrored: two operands without a type build a list "of nothing"
+         (GetListElementType(void) = void on both sides) that `die Länge von` etc. accept; the model has the
+         repaired behaviour (see the C04 report), the check reports such programs through the specification oracle *)
+      if negb (vlist a) && negb (vlist b) && (vty_eqb a (Some TText) || vty_eqb b (Some TText))
+      then (Some TText, validate2 vtextish a b)
+      else (match velem a with Some t => Some (TList t) | None => None end,
+            if vty_eqb (velem a) (velem b) then unless (match velem a with Some _ => true | None => false end) DTypeOp
+            else [DTypeOp])
+  | BAb | BBis =>
+      (match a with Some (TList _) | Some TText => a | _ => b end, unless (vseq a) DTypeOp ++ unless (vindex b) DTypeOp)
   end.
 
 (* typechecker.go VisitCastExpr restricted to the core types *)
@@ -217,6 +237,20 @@ Fixpoint tc_expr (F : fenv) (G : env) (e : expr) : vty * list diag :=
       | _ => (None, d)                            (* no diagnostic: "already reported by the resolver" *)
       end
   | ECall f a => match assoc f F with None => (None, []) | Some (ps, r) => (r, tc_args F G a ps) end
+  | ESlice l i j =>
+      (* TER_SLICE *)
+      let (a, d1) := tc_expr F G l in
+      let (ti, d2) := tc_expr F G i in
+      let (tj, d3) := tc_expr F G j in
+      (match a with Some (TList _) | Some TText => a | _ => tj end,
+       d1 ++ d2 ++ d3 ++ unless (vseq a) DTypeOp ++ unless (vindex ti) DTypeOp ++ unless (vindex tj) DTypeOp)
+  | EList e a =>
+      (* VisitListLit; a first element without a type: see BVerkettet *)
+      let (t, d) := tc_expr F G e in
+      match t with
+      | Some t0 => (Some (TList t0), d ++ when (is_listb t0) DTypeOp ++ tc_args F G a (repeat (t0, false) (alen a)))
+      | None => (None, d ++ [DTypeOp])
+      end
   end
 with tc_args (F : fenv) (G : env) (a : args) (ps : list (ty * bool)) : list diag :=
   match a, ps with
@@ -237,6 +271,11 @@ Definition tc_numeric (F : fenv) (G : env) (e : expr) : list diag :=
 
 Definition tc_init (F : fenv) (G : env) (e : expr) (t : ty) : list diag :=
   let (t0, d) := tc_expr F G e in d ++ unless (vassign_ok t0 (Some t)) DTypeInit.
+
+(* VisitForRangeStmt: the loop variable takes the elements of a list or the characters of a Text *)
+Definition tc_iter (F : fenv) (G : env) (e : expr) (t : ty) : list diag :=
+  let (te, d) := tc_expr F G e in
+  d ++ unless (match te with Some (TList el) => ty_eqb t el | Some TText => ty_eqb t TChar | _ => false end) DTypeFor.
 
 (* VisitReturnStmt *)
 Definition tc_return (F : fenv) (G : env) (r : retctx) (oe : option expr) : list diag :=
@@ -271,6 +310,17 @@ Fixpoint tcs_stmt (deep : bool) (F : fenv) (G : env) (r : retctx) (s : stmt) : l
       let (t0, d) := tc_expr F G e in
       let (tx, _) := tc_expr F G (EVar x) in
       d ++ unless (vassign_ok t0 tx) DTypeAssign
+  | SAssignIdx x i e =>
+      (* VisitAssignStmt: value, then the target (VisitIndexing: index, then the indexed variable) *)
+      let (t0, d) := tc_expr F G e in
+      let (ti, di) := tc_expr F G i in
+      let (tx, _) := tc_expr F G (EVar x) in
+      d ++ di ++ unless (vindex ti) DTypeOp ++ unless (vseq tx) DTypeOp ++
+      unless (vassign_ok t0 (match tx with Some (TList t) => Some t | _ => Some TChar end)) DTypeAssign
+  | SAssignField f x e =>
+      let (t0, d) := tc_expr F G e in
+      let (tf, df) := tc_expr F G (EField f (EVar x)) in
+      d ++ df ++ unless (match tf with Some _ => true | None => false end) DNoField ++ unless (vassign_ok t0 tf) DTypeAssign
   | SIf c th el =>
       tc_cond F G c ++
       (if deep then tcs_block deep F (final_scope [] th :: G) r th ++ tcs_block deep F (final_scope [] el :: G) r el else [])
@@ -280,6 +330,13 @@ Fixpoint tcs_stmt (deep : bool) (F : fenv) (G : env) (r : retctx) (s : stmt) : l
       tc_init F G from t ++ unless (numeric t) DTypeFor ++ tc_numeric F G to ++
       match step with Some e => tc_numeric F G e | None => [] end ++
       (if deep then tcs_block deep F (final_scope [(x, BVar t)] b :: G) r b else [])
+  | SForEach _ t x e b =>
+      tc_iter F G e t ++ (if deep then tcs_block deep F (final_scope [(x, BVar t)] b :: G) r b else [])
+  | SRepeat b n =>
+      (let (tn, d) := tc_expr F G n in d ++ unless (vindex tn) DTypeOp) ++
+      (if deep then tcs_block deep F (final_scope [] b :: G) r b else [])
+  | SDoWhile b c =>
+      tc_cond F G c ++ (if deep then tcs_block deep F (final_scope [] b :: G) r b else [])
   | SBreak | SContinue => []
   | SReturn oe => tc_return F G r oe
   | SBlock b => if deep then tcs_block deep F (final_scope [] b :: G) r b else []
@@ -322,6 +379,16 @@ Fixpoint ck_stmt (F : fenv) (G : env) (d : nat) (r : retctx) (s : stmt) : list d
                 | Some _ => [DNotVar]
                 end ++ rs_expr G e in
       (dp ++ dr ++ tcs_stmt (q_tc_by_name Q) F G r s, G)
+  | SAssignIdx x i e =>
+      (* assignNoLiteral: value, assigneable() (the indexed name, then the index) *)
+      let dp := pt_expr F G e ++ match lookup G x with Some (BVar _) | None => [] | Some _ => [DConstAssign] end ++ pt_expr F G i in
+      (* resolver.VisitAssignStmt, *ast.Indexing: the indexed expression, the index, the value *)
+      let dr := rs_ident G x ++ rs_expr G i ++ rs_expr G e in
+      (dp ++ dr ++ tcs_stmt (q_tc_by_name Q) F G r s, G)
+  | SAssignField f x e =>
+      let dp := pt_expr F G e ++ match lookup G x with Some (BVar _) | None => [] | Some _ => [DConstAssign] end in
+      let dr := rs_ident G x ++ rs_expr G e in
+      (dp ++ dr ++ tcs_stmt (q_tc_by_name Q) F G r s, G)
   | SIf c th el =>
       let dp := pt_expr F G c in
       let (d1, _) := ck_block F (push G) d r th in
@@ -340,6 +407,17 @@ Fixpoint ck_stmt (F : fenv) (G : env) (d : nat) (r : retctx) (s : stmt) : list d
       let Gr := if q_tc_by_name Q then Gb else G in
       let dr := rs_expr Gr from ++ rs_expr Gr to ++ rs_opt Gr step in
       (dp ++ d1 ++ dr ++ tcs_stmt (q_tc_by_name Q) F G r s, G)
+  | SForEach a t x e b =>
+      let dp := pt_type G t ++ art_diag t a ++ pt_expr F G e in
+      let (d1, _) := ck_block F (bind (push G) x (BVar t)) (S d) r b in
+      (dp ++ d1 ++ rs_expr G e ++ tcs_stmt (q_tc_by_name Q) F G r s, G)
+  | SRepeat b n =>
+      (* the count is parsed after the body *)
+      let (d1, _) := ck_block F (push G) (S d) r b in
+      (d1 ++ pt_expr F G n ++ rs_expr G n ++ tcs_stmt (q_tc_by_name Q) F G r s, G)
+  | SDoWhile b c =>
+      let (d1, _) := ck_block F (push G) (S d) r b in
+      (d1 ++ pt_expr F G c ++ rs_expr G c ++ tcs_stmt (q_tc_by_name Q) F G r s, G)
   | SBreak | SContinue => (match d with O => [DBreak] | S _ => [] end, G)
   | SReturn oe =>
       let dp := pt_opt F G oe ++ match r with RGlobal => [DGlobalReturn] | RFun _ => [] end in
